@@ -123,6 +123,8 @@ class Engine:
         s.nstates = 0
         s.noinline = set(noinline)
         s.nonneg = set()
+        s.init_assumptions = None
+        s.exact_div = False
         s.widened = set()
         s.top_blocks = len(fn.order) if precision == "high" else 10 ** 6     # 'low' behaves like a very large entry point
         s.debug_hook = None
@@ -553,7 +555,13 @@ class Engine:
         env = {}
         for p in fn.j["params"]:
             env[p["id"]] = s.opaque(fr, p["id"], p["ty"])
-        st0 = State(env, Facts(), 0, s.plugin.init(s))
+        f0 = Facts()
+        for (t_, v_) in (s.init_assumptions or ()):
+            f0 = s.assume(t_, v_, f0)
+            if f0 is None:
+                s.results = []
+                return s.results          # the assumed situation is contradictory
+        st0 = State(env, f0, 0, s.plugin.init(s))
         for (rv, st, path) in s.explore(fr, st0, top=True):
             s.results.append((rv, st, path))
         return s.results
@@ -683,7 +691,7 @@ class Engine:
             if not inc or vid in s.widened:
                 newv[vid] = s.opaque(fr, i["id"], i["ty"])
             else:
-                x = s.stabilise(fr, i, s.val(fr, inc[0]["v"], env))
+                x = s.stabilise(fr, i, s.val(fr, inc[0]["v"], env), facts)
                 if blk["insts"][-1]["op"] != "ret" and not (x[0] == "i" and x[1].is_const() and i["id"] in s.relevant_ids(fn)):
                     vs = s.phivals.setdefault(vid, set())
                     vs.add(x)
@@ -861,7 +869,10 @@ class Engine:
                 s.nonneg.add(vid)
                 if vid in s.loopdef or any(_core(x) in s.loopdef for x in a.t):
                     return setv(I(q))
-                ge = facts.ge | {a - q.scale(k), q.scale(k) + Lin.const(k - 1) - a}
+                if s.exact_div:
+                    ge = facts.ge | {a - q.scale(k), q.scale(k) - a}      # stated assumption: the dividend is a multiple of the divisor
+                else:
+                    ge = facts.ge | {a - q.scale(k), q.scale(k) + Lin.const(k - 1) - a}
                 e2 = dict(env)
                 e2[vid] = I(q)
                 return [(e2, Facts(ge, facts.ne, facts.cb), epoch, pl)]
@@ -1185,7 +1196,7 @@ class Engine:
             return True              # parameter (no defining instruction)
         return op in ("call", "invoke")
 
-    def stabilise(s, fr, phi, x):
+    def stabilise(s, fr, phi, x, facts=None):
         """value bound to a merge phi: constants, parameter/call-result expressions and pointer roots stay precise; data computed along
         the path (loads, bit operations, loop-carried values) collapses into the phi's own opaque atom so that paths can merge again"""
         vid = fr.pre + phi["id"]
@@ -1206,6 +1217,10 @@ class Engine:
                 return x
             if x[1][0] == "cmp" and all(s.stable_atom(a) for a in (x[1][2] - x[1][3]).t):
                 return x
+            if facts is not None:
+                d_ = s.decide(x[1], facts)
+                if d_ is not None:
+                    return (x[0], T_const(d_))      # the condition is already decided on this path: carry the constant
             s.loopdef.add(vid)
             return (x[0], ("o", vid))
         return x
